@@ -161,3 +161,12 @@ package main
 //@   requires @checkers-non-nil forall k int :: (0 <= k && k < len(p.checkers)) ==> validChecker(p.checkers[k])
 //@   assigns p.foundIssues, any(linter.CheckerContext.warnings), p.ctx.Pkg, p.ctx.Filename, p.ctx.PkgObjects, p.ctx.PkgRenames, object(p.ctx.TypesInfo)
 //@   loop 1 body @every-loaded-package-is-checked $pkgChecked(p.loadedPackages[$i])
+
+// the step runner: a failing step ends the process through log.Fatalf (non-zero status, step name and error in the
+// message); runCheck itself therefore never returns an error that a caller could swallow
+//@ func runCheck
+//@   prop C19
+//@   nosafety
+//@   dyncalls_frame the steps are methods of the program value
+//@   call log.Fatalf requires @message-names-step-and-error arg0 == "%s: %v"
+//@   ensures @step-errors-are-fatal-not-returned result == nil
